@@ -6,11 +6,13 @@ PROP = "C15"
 LEVEL = "proof"
 RULE = ("random multifurcating trees (3..14 tips, 20 in thorough; rooted/unrooted; parent slot at random positions; lengths "
         "all/mixed/none with zeros; supports; named inner nodes; node and branch comments) x "
-        "clone x 8 edits (rename, length, support, comment, clearcomments, removetip, reroot, graft) applied to the copy then, on a "
+        "clone x 12 edits (rename, length, support, comment, clear all / branch / node comments then add new ones, every mutable field "
+        "of every node and branch, writes through the existing comment slices, removetip, reroot, graft) applied to the copy then, on a "
         "fresh pair, to the original, with and without ReinitIndexes; subtree at every node index (inner nodes and tips) x edit; "
         "merge of two rooted trees on disjoint tips, plus unrooted / overlapping / no-index pairs (refusals); graft of a second "
         "tree (rooted or not) on every tip, plus absent tip / no index / overlapping names; insert identical tips: groups with "
-        "one existing member and 1..3 new names on tip branches of length zero / positive / absent, plus groups with none or two "
+        "one existing member and 1..3 new names on tip branches of length zero / positive / absent, chained groups (a group anchored "
+        "on a tip added by an earlier group of the same call, depth 2..3), plus groups with none or two "
         "existing members, empty groups, repeated new names, names inserted by an earlier group, no index; remove single nodes: "
         "1..4 single-child nodes inserted on random branches including chains and branches at the root, every combination of "
         "present/absent length above and below, with and without indexes.  non-trivial = the result differs from the input (for "
@@ -42,7 +44,21 @@ def _has_branch_comment(t):
 # lost the length above a single-child node when the branch below had none): no open finding, no matcher.
 MATCHERS = {}
 
-EDITS = ["rename", "length", "support", "comment", "clearcomments", "removetip", "reroot", "graft"]
+EDITS = ["rename", "length", "support", "comment", "clearcomments", "removetip", "reroot", "graft",
+         "clearedgecomments", "clearnodecomments", "allfields", "overwritecomments"]
+COMMENT_EDITS = ["clearcomments", "clearedgecomments", "clearnodecomments", "allfields", "overwritecomments", "comment"]
+
+def enrich_comments(rng, t):
+    """node and branch comments on about half of the nodes and branches (1..3 each)"""
+    t = _copy.deepcopy(t)
+    pool = ["c", "&x=1", "a b", "k:v", "z,w", "(p)", "q;r", "ec", "&e=2", "x y"]
+    for x in preorder(t):
+        if rng.random() < 0.5:
+            x["coms"] = [rng.choice(pool) for _ in range(rng.randint(1, 3))]
+        for e, _c in kids(x):
+            if rng.random() < 0.5:
+                e["coms"] = [rng.choice(pool) for _ in range(rng.randint(1, 3))]
+    return t
 
 def rand_tree(g, rng, tier, prefix="t", lo=3, hi=None, rooted=None, comments=None, inner_names=None, ntips=None):
     hi = hi or (14 if tier != "thorough" else 20)
@@ -109,17 +125,25 @@ def gen(rng, tier):
             add({"op": Sym("insert"), "tree": T(t), "groups": [[old, "n0"]], "idx": True}, op="insert", root1=True)
     N = {"quick": 60, "thorough": 400, "search": 120}[tier]
     # ---- clone
-    for _ in range(N):
+    for k in range(N):
         t = rand_tree(g, rng, tier, comments=rng.random() < 0.6)
         if rng.random() < 0.2:
             t = add_singles(g, rng, t, rng.randint(1, 2))
+        rich = k % 2 == 0
+        if rich:
+            t = enrich_comments(rng, t)
         hasbc = _has_branch_comment(t)
-        for ed in rng.sample(EDITS, 3):
+        eds = rng.sample(EDITS, 3)
+        if rich:
+            eds = list(dict.fromkeys(eds + COMMENT_EDITS))
+        for ed in eds:
             add({"op": Sym("clone"), "tree": T(t), "edit": Sym(ed), "reinit": rng.random() < 0.5},
                 op="clone", edit=ed, branch_comments=hasbc, ntips=len(leaves(t)))
     # ---- subtree
-    for _ in range(N):
+    for k in range(N):
         t = rand_tree(g, rng, tier)
+        if k % 2 == 0:
+            t = enrich_comments(rng, t)
         nn = n_nodes(t)
         nodes = list(preorder(t))
         inner = [i for i, x in enumerate(nodes) if kids(x)]
@@ -127,7 +151,7 @@ def gen(rng, tier):
         pick = inner if tier != "search" else rng.sample(inner, min(3, len(inner)))
         pick = pick + rng.sample(tipsi, 1)
         for i in pick:
-            ed = rng.choice(EDITS)
+            ed = rng.choice(COMMENT_EDITS if (k % 2 == 0 and rng.random() < 0.7) else EDITS)
             add({"op": Sym("subtree"), "tree": T(t), "i": i, "edit": Sym(ed), "reinit": rng.random() < 0.5},
                 op="subtree", edit=ed, at=("root" if i == 0 else ("inner" if kids(nodes[i]) else "tip")), ntips=len(leaves(t)))
     # ---- merge
@@ -184,6 +208,26 @@ def gen(rng, tier):
         kind = "ok"
         idx = True
         r = rng.random()
+        if r < 0.20:
+            # chained groups: a later group is anchored on a tip that an earlier group adds (depth 2..3)
+            depth = rng.choice([2, 2, 3])
+            gi = rng.randrange(len(groups))
+            anchor = rng.choice([x for x in groups[gi] if x.startswith("n")])
+            pos = gi + 1
+            for dpt in range(depth - 1):
+                news = ["m%d_%d" % (dpt, j) for j in range(rng.choice([1, 1, 2]))]
+                grp = [anchor] + news
+                rng.shuffle(grp)
+                pos = rng.randrange(pos, len(groups) + 1)
+                groups.insert(pos, grp)
+                pos += 1
+                anchor = rng.choice(news)
+            kind = "chained%d" % depth
+            r = 1.0
+        elif r < 0.50:
+            r = (r - 0.20) / 0.30 * 0.36      # the refusal / special kinds below, same mix as before
+        else:
+            r = 1.0
         if r < 0.05:
             groups[rng.randrange(len(groups))].append(rng.choice([x for x in tips if x not in olds] or tips)); kind = "two-existing"
         elif r < 0.10:
